@@ -3,6 +3,7 @@ import TongoModel.PoolSM
 import TongoProofs.Lemmas.PoolSelect
 import TongoProofs.Lemmas.PoolSMDeadlock
 import TongoProofs.Lemmas.PoolSMSelect
+import TongoProofs.Lemmas.PoolSMLive
 /-! Property C13 — the connection pool picks a healthy, current server and its waits never hang.
 Property theorems only (helper lemmas live in TongoProofs/Lemmas/PoolSelect.lean, PoolSM*.lean).
 
@@ -430,6 +431,61 @@ theorem eventually_notified (v : Variant) (s : State) (hr : Reachable v s) (i : 
     · cases hc
   · have := hO.selLow i w hw hsel h hmem
     omega
+
+/-- **wait_success_spec** (liveness of the repaired protocol under explicit fairness). Take any infinite execution
+of the repaired model (any interleaving of any number of waiters, SetMasterHead callers, ticks, liveness changes) in
+which `Run` is weakly fair (it is not ignored forever while it can move) and the waiter's receive is strongly fair
+(Go hands a sent value directly to a receiver blocked in its select; over the model's buffered channel that is strong
+fairness of the receive — weak fairness is not enough because `Run` may take the head back and put a newer one
+again and again). If at some moment waiter `i` is in its select and a head `h ≥ target` of the best connection
+* is in its channel (this covers "reported before": subscribe's short circuit puts it there), or
+* is being handed out by notifySubscribers / by updateBest after a switch and `i` has not been served yet, or
+* is carried by `Run` between its two selects for `i`'s channel,
+and neither its timer nor its context fires afterwards, then the waiter's result becomes `ok`. Together with
+`wait_outcomes` (ok only for a head ≥ target, err only after timer/ctx) and `no_deadlock`. What is not covered:
+the deferred unsubscribe after the decision needs the pool lock, i.e. fairness of the lock (`WaitReturns`). -/
+theorem wait_success_spec (e : Exec fixed) (i n0 : Nat) (w : Waiter)
+    (hfR : WeakFair e RunAct) (hfW : StrongFair e (RecvAct i))
+    (hnofire : ∀ m, n0 ≤ m → e.act m ≠ .wFire i)
+    (hw : (e.st n0).waiters[i]? = some w) (hsel : w.pc = .sel)
+    (hoff : (∃ h ∈ w.buf, w.target ≤ h) ∨
+      (∃ sw h todo, (e.st n0).run = .nLoop sw h todo ∧ i ∈ todo ∧ w.target ≤ h) ∨
+      (∃ sw h h' x todo, (e.st n0).run = .nPut sw h h' x todo ∧ i ∈ todo ∧ w.target ≤ h) ∨
+      (∃ sw h h' todo, (e.st n0).run = .nPut sw h h' i todo ∧ w.target ≤ h')) :
+    ∃ m, n0 ≤ m ∧ ∃ w', (e.st m).waiters[i]? = some w' ∧ (w'.pc = .leave .ok ∨ w'.pc = .done .ok) := by
+  have hA := reachable_invA (e.reachable n0)
+  have hg : Good (e.st n0) i := by
+    intro w0 hw0
+    rw [hw] at hw0; cases hw0
+    refine Or.inl ⟨hsel, ?_⟩
+    simp only [Bool.or_eq_true]
+    rcases hoff with ⟨h, hmem, hle⟩ | ⟨sw, h, todo, hr, hi, hle⟩ | ⟨sw, h, h', x, todo, hr, hi, hle⟩ |
+        ⟨sw, h, h', todo, hr, hle⟩
+    · right
+      have hc := hA.cap1 i w hw
+      unfold bufGe
+      cases hb : w.buf with
+      | nil => rw [hb] at hmem; cases hmem
+      | cons u rest =>
+        rw [hb] at hmem hc
+        have : rest = [] := by cases rest <;> simp_all
+        subst this
+        simp at hmem; subst hmem
+        simpa using hle
+    · left; left; simp [preGe, hr, hi, hle]
+    · left; left; simp [preGe, hr, hi, hle]
+    · left; right; simp [carriedGe, hr, hle]
+  obtain ⟨m, hm, hd⟩ := decided_eventually (v := fixed) rfl e i n0 hnofire hfR hfW ⟨w, hw⟩ hg
+  obtain ⟨w', hw'⟩ := exec_waiter_some e i n0 ⟨w, hw⟩ m hm
+  exact ⟨m, hm, w', hw', hd w' hw'⟩
+
+/-- Not proved: after the decision the waiter still has to take the pool's write lock for its deferred unsubscribe;
+that it eventually gets it needs fairness of the lock itself (Go's mutex is starvation-free) in addition to weak
+fairness of every other thread. -/
+def WaitReturns : Prop :=
+  ∀ (e : Exec fixed) (i n0 : Nat), (∀ A, WeakFair e A) → (∀ A, StrongFair e A) →
+    (∃ w, (e.st n0).waiters[i]? = some w ∧ w.pc = .leave .ok) →
+    ∃ m, n0 ≤ m ∧ ∃ w', (e.st m).waiters[i]? = some w' ∧ w'.pc = .done .ok
 
 /-- with a best connection chosen initially (which `addConnection` guarantees for a non-empty pool) no waiter ever
 dereferences a nil `bestConn`: `subscribe` does not panic. (On an EMPTY pool `WaitMasterchainSeqno` does panic —
